@@ -1874,8 +1874,10 @@ def pretty_str(s, ctx, split_pattern=None):
             pattern=split_pattern,
         ))
 
-        if len(lines) == 1:
-            return flat_version
+        if len(lines) <= 1:
+            if is_native_type:
+                return flat_version
+            return build_fncall(ctx, constructor, argdocs=[flat_version])
 
         parts = intersperse(
             HARDLINE,
